@@ -19,7 +19,12 @@ VARIABLES name, cfg, lvl
 NW == <<119>>
 Other1 == <<113, 113>>
 Other2 == <<109, 97, 116, 104, 58, 58, 110, 111, 112, 101>>            \* "math::nope"
-AllNames == DOMAIN BuiltinId \cup {Other1, Other2}
+\* near misses of builtin names: a namespace prefix dropped or added, a wrong namespace, another letter case, a proper prefix -
+\* none of them is a builtin ("sqrt", "math::floor", "str::len", "to_uppercase", "Max", "math::", "math::sqr")
+NearMisses == {<<115, 113, 114, 116>>, <<109, 97, 116, 104, 58, 58, 102, 108, 111, 111, 114>>, <<115, 116, 114, 58, 58, 108, 101, 110>>,
+               <<116, 111, 95, 117, 112, 112, 101, 114, 99, 97, 115, 101>>, <<77, 97, 120>>, <<109, 97, 116, 104, 58, 58>>,
+               <<109, 97, 116, 104, 58, 58, 115, 113, 114>>}
+AllNames == DOMAIN BuiltinId \cup {Other1, Other2} \cup NearMisses
 Behaviours == {BehId, BehConst(VNat(7)), BehFail, BehNotFound}
 Cfg(kind, nb, uf, hasVar) == [kind |-> kind, nb |-> nb, uf |-> uf, var |-> hasVar]
 NoFn == Beh("none", VEmpty)
